@@ -80,7 +80,9 @@ def main(tier, seed, replay=None):
                    "op_params": [{"name": "f_def", "in": "query", "schema": A}, {"name": "f_ex", "in": "query", "schema": A, "explode": True},
                                  {"name": "f_noex", "in": "query", "schema": A, "explode": False},
                                  {"name": "sp_def", "in": "query", "schema": A, "style": "spaceDelimited"}, {"name": "sp_noex", "in": "query", "schema": A, "style": "spaceDelimited", "explode": False},
-                                 {"name": "pi_def", "in": "query", "schema": A, "style": "pipeDelimited"}, {"name": "pi_noex", "in": "query", "schema": A, "style": "pipeDelimited", "explode": False}]}])
+                                 {"name": "pi_def", "in": "query", "schema": A, "style": "pipeDelimited"}, {"name": "pi_noex", "in": "query", "schema": A, "style": "pipeDelimited", "explode": False},
+                                 {"name": "n_noex", "in": "query", "schema": {"type": "array", "items": {"type": "integer"}}, "explode": False},
+                                 {"name": "n_pipe", "in": "query", "schema": {"type": "array", "items": {"type": "integer", "format": "int32"}}, "style": "pipeDelimited"}]}])
     if replay:
         cases = [json.load(open(replay))["ops"]]
     d = vlib.scratch("C05")
@@ -186,7 +188,7 @@ def main(tier, seed, replay=None):
                     fld = next(f for st in structs for f in st["fields"] if f["name"] == want)
                     attrs = " ".join(str(a.get("attr")) for a in fld["attrs"])
                     sep = {"form": "Comma", "spaceDelimited": "Space", "pipeDelimited": "Pipe"}[style]
-                    has = f"StringWith{sep}Separator" in attrs
+                    has = f"StringWith{sep}Separator" in attrs or ("StringWithSeparator<" in attrs.replace(" ", "") and f"{sep}Separator" in attrs)
                     if exploded == has or (not exploded and not has):
                         viol.append((ops, f"{o['method'].upper()} {o['template']}: array query parameter {nm!r} (style {style}, explode {exploded}) is extracted {'with' if has else 'without'} the {sep.lower()} separator adapter ({attrs or 'no attributes'}): a request `?{nm}=a{ {'Comma': ',', 'Space': '%20', 'Pipe': '|'}[sep] }b` does not reach the handler as [a, b]"))
                 if (loc == "query" and "Query(query)" not in ext) or (loc == "header" and "HeaderMap" not in ext):
